@@ -242,16 +242,42 @@ func checkLayoutSiblings(p *Program, r *Report, rule string) {
 // are joint constants from {(4,17),(8,257)}.
 func builderSizePairs(p *Program, F *ssa.Function) string {
 	var ws, bs ssa.Value
+	// the calls may sit in the builder or in a helper it calls; a helper's parameter is
+	// resolved to the value the builder passes
+	resolve := func(v ssa.Value, in *ssa.Function) ssa.Value {
+		prm, ok := v.(*ssa.Parameter)
+		if !ok || in == F {
+			return v
+		}
+		for _, c2 := range callsIn(F) {
+			if calleeOf(c2) == in {
+				for i, q := range in.Params {
+					if q == prm && i < len(c2.Common().Args) {
+						return c2.Common().Args[i]
+					}
+				}
+			}
+		}
+		return v
+	}
+	scan := []*ssa.Function{F}
 	for _, c := range callsIn(F) {
-		call, ok := c.(*ssa.Call)
-		if !ok {
-			continue
+		if g := calleeOf(c); g != nil && trieScope(g) && len(g.Blocks) > 0 {
+			scan = append(scan, g)
 		}
-		if calleeIs(call, idPathsOf) && len(call.Call.Args) >= 3 {
-			ws = call.Call.Args[2]
-		}
-		if calleeIs(call, idPathToIdx) && len(call.Call.Args) >= 1 {
-			bs = call.Call.Args[0]
+	}
+	for _, g := range scan {
+		for _, c := range callsIn(g) {
+			call, ok := c.(*ssa.Call)
+			if !ok {
+				continue
+			}
+			if calleeIs(call, idPathsOf) && len(call.Call.Args) >= 3 {
+				ws = resolve(call.Call.Args[2], g)
+			}
+			if calleeIs(call, idPathToIdx) && len(call.Call.Args) >= 1 {
+				bs = resolve(call.Call.Args[0], g)
+			}
 		}
 	}
 	if ws == nil || bs == nil {
